@@ -157,6 +157,9 @@ class Run:
     def canary_check(self, unit):
         """in-memory rewrites of the real source must NOT verify (guards against an unsound engine)"""
         from .front import Sources
+        if self.failed:
+            self.canaries.append({'canary': 'skipped for unit %s' % unit.name, 'result': 'skipped: the real source already has undischarged obligations'})
+            return
         lim = 2 if self.tier == 'quick' else len(unit.mutants)
         for (label, rel, old, new) in unit.mutants[:lim]:
             src = Sources()
